@@ -81,6 +81,16 @@ Theorem natural_attributes : forall force c_size c_align ms,
 Proof. exact Proofs.natural_attributes. Qed.
 Print Assumptions natural_attributes.
 
+(* whenever add_tail_padding emits a field it leaves the tracker at the end of the struct,
+   and the pad_struct that follows (same layout) emits nothing: whatever the environment and
+   the state, the tail is never padded twice *)
+Theorem tail_padding_then_pad_struct_adds_nothing : forall env st size align st1 l,
+  step env st (AddTailPadding size align) = (st1, Some l) ->
+  latest_offset st1 = size /\
+  snd (step env st1 (PadStruct size align)) = None.
+Proof. exact Proofs.tail_padding_then_pad_struct_adds_nothing. Qed.
+Print Assumptions tail_padding_then_pad_struct_adds_nothing.
+
 (* ------------------------------------------------------------------ before the fix *)
 (* [legacy_env]: padding_align = min(align, 8) as saw_field_with_layout had it.
    struct { int a; char b; long double c; } got the padding blob
@@ -235,11 +245,12 @@ Example for_size_internal_nonvacuous :
 Proof. exact Proofs.for_size_internal_nonvacuous. Qed.
 Print Assumptions for_size_internal_nonvacuous.
 
-(* struct { int a : 1; } with --explicit-padding: the tail is padded twice (open) *)
-Example explicit_padding_bitfield_double_tail :
+(* struct { int a : 1; } with --explicit-padding: since the fix (add_tail_padding advances
+   latest_offset), the tail is padded once; before it pad_struct added the same 3 bytes again *)
+Example explicit_padding_bitfield_single_tail :
   snd (run (plain_env true 4 4) init_state
          [SawBitfieldUnit 1 1; AddTailPadding 4 4; PadStruct 4 4])
-    = [None; Some (3, 0); Some (3, 1)] /\
-  rust_size_align None [RField 1 1; blob_field (3, 0); blob_field (3, 1)] = (7, 1).
-Proof. exact Proofs.explicit_padding_bitfield_double_tail. Qed.
-Print Assumptions explicit_padding_bitfield_double_tail.
+    = [None; Some (3, 0); None] /\
+  rust_size_align None [RField 1 1; blob_field (3, 0)] = (4, 1).
+Proof. exact Proofs.explicit_padding_bitfield_single_tail. Qed.
+Print Assumptions explicit_padding_bitfield_single_tail.
